@@ -699,6 +699,31 @@ pub fn run(ctx: &mut Ctx) {
         }
     });
 
+    // ------------------------------------------------ S10: long runs of empty fragments (33, 40, 100, 1000, 5000 in a row) at
+    // the start, in the middle, or right before the completing fragment: every one answers Incomplete, then the
+    // last fragment returns the unsplit parse
+    ctx.floor("s10.splits", 20);
+    ctx.sweep("S10-empty-fragment-runs", 30, |ctx, idx| {
+        let mut r = Rng::new(idx ^ 0x510);
+        let hb = idx % 5 == 4;
+        let (payload, first) = if hb { hb_payload(&mut r) } else { hs_payload(&mut r, gen::TINY) };
+        let ty = if hb { 0x18 } else { 0x16 };
+        if first < 2 {
+            return;
+        }
+        let run = [33usize, 40, 100, 1000, 5000, 32][(idx % 6) as usize];
+        let at = match (idx / 6) % 3 { 0 => 0, 1 => first / 2, _ => first - 1 };
+        let mut cutv: Vec<usize> = Vec::new();
+        if at > 0 && r.bool() {
+            cutv.push(r.usize(0, at));
+        }
+        cutv.extend(std::iter::repeat(at).take(run));
+        cutv.sort();
+        if run_split(ctx, "S10", ty, &payload, &split_at(&payload, &cutv)) {
+            ctx.count("s10.splits");
+        }
+    });
+
     // ------------------------------------------------ S9: messages whose accumulated size is a power-of-two coincidence
     // (65535 / 65536 / 65537 bytes, 2 x and 3 x 65536, 2^18, 2^20) split into records within the record-length cap
     ctx.floor("s9.splits", 20);
